@@ -17,7 +17,7 @@ package main
 //@   opt nonterminating
 //@   opt allocbound 65535   // copies of the received datagram and of its JSON encoding
 //@   modifies i.stats.DecodedCount, mCache
-//@   loop 1 @ for
+//@   loop 1 @ for #ea48efdb
 //@     invariant opts != nil && opts == old(opts) && opts.IPFIXUDPSize >= 0 && buf != nil && i != nil && cap(msg.body) >= opts.IPFIXUDPSize
 //@     step [once] sends_ipfixMQCh <= iter(sends_ipfixMQCh) + 1
 //@     step [records] sends_ipfixMQCh == iter(sends_ipfixMQCh) + 1 ==> decodedMsg != nil && len(decodedMsg.DataSets) > 0
@@ -34,7 +34,7 @@ package main
 //@   opt nonterminating
 //@   opt allocbound 65535
 //@   modifies i.stats.DecodedCount, mCacheNF9
-//@   loop 1 @ for
+//@   loop 1 @ for #40268664
 //@     invariant opts != nil && opts == old(opts) && opts.NetflowV9UDPSize >= 0 && buf != nil && i != nil && cap(msg.body) >= opts.NetflowV9UDPSize
 //@     step [once] sends_netflowV9MQCh <= iter(sends_netflowV9MQCh) + 1
 //@     step [records] sends_netflowV9MQCh == iter(sends_netflowV9MQCh) + 1 ==> decodedMsg != nil && decodedMsg.DataSets != nil
@@ -51,7 +51,7 @@ package main
 //@   opt nonterminating
 //@   opt allocbound 65535
 //@   modifies i.stats.DecodedCount
-//@   loop 1 @ for
+//@   loop 1 @ for #90b4f9a9
 //@     invariant opts != nil && opts == old(opts) && opts.NetflowV5UDPSize >= 0 && buf != nil && i != nil && cap(msg.body) >= opts.NetflowV5UDPSize
 //@     step [once] sends_netflowV5MQCh <= iter(sends_netflowV5MQCh) + 1
 //@     step [published] decodedMsg != nil && decodedMsg.Flows != nil && err == nil && !full_netflowV5MQCh ==> sends_netflowV5MQCh == iter(sends_netflowV5MQCh) + 1
@@ -69,7 +69,7 @@ package main
 //@   opt nonterminating
 //@   opt allocbound 65535
 //@   modifies s.stats.DecodedCount
-//@   loop 1 @ for
+//@   loop 1 @ for #8fd0c876
 //@     invariant opts != nil && opts == old(opts) && opts.SFlowUDPSize >= 0 && s != nil
 //@     step [once] sends_sFlowMQCh <= iter(sends_sFlowMQCh) + 1
 //@     step [published] datagram != nil && (len(datagram.Counters) >= 1 || len(datagram.Samples) >= 1) && err == nil && !full_sFlowMQCh ==> sends_sFlowMQCh == iter(sends_sFlowMQCh) + 1
@@ -83,10 +83,10 @@ package main
 //@   requires opts != nil && opts.IPFIXUDPSize >= 0 && opts.IPFIXUDPSize <= 1048576
 //@   opt nonterminating
 //@   modifies i, mCache, ipfix.InfoModel
-//@   loop 1 @ for n < i.workers
+//@   loop 1 @ for n < i.workers #c06bb7cb
 //@     invariant i != nil && opts != nil && opts == old(opts) && opts.IPFIXUDPSize >= 0 && opts.IPFIXUDPSize <= 1048576 && conn != nil
 //@     decreases i.workers - n
-//@   loop 2 @ for !i.stop
+//@   loop 2 @ for !i.stop #ad74cfa7
 //@     invariant i != nil && opts != nil && opts == old(opts) && opts.IPFIXUDPSize >= 0 && opts.IPFIXUDPSize <= 1048576 && conn != nil && wellFormed(mCache)
 //@     step [received] (sends_ipfixUDPCh == iter(sends_ipfixUDPCh) + 1 && i.stats.UDPCount == (iter(i.stats.UDPCount) + 1) % 18446744073709551616) || (sends_ipfixUDPCh == iter(sends_ipfixUDPCh) && i.stats.UDPCount == iter(i.stats.UDPCount))
 
@@ -95,10 +95,10 @@ package main
 //@   requires opts != nil && opts.NetflowV9UDPSize >= 0
 //@   opt nonterminating
 //@   modifies i, mCacheNF9
-//@   loop 1 @ for n < i.workers
+//@   loop 1 @ for n < i.workers #da43be8d
 //@     invariant i != nil && opts != nil && opts == old(opts) && opts.NetflowV9UDPSize >= 0 && conn != nil
 //@     decreases i.workers - n
-//@   loop 2 @ for !i.stop
+//@   loop 2 @ for !i.stop #62295c79
 //@     invariant i != nil && opts != nil && opts == old(opts) && opts.NetflowV9UDPSize >= 0 && conn != nil && wellFormed9(mCacheNF9)
 //@     step [received] (sends_netflowV9UDPCh == iter(sends_netflowV9UDPCh) + 1 && i.stats.UDPCount == (iter(i.stats.UDPCount) + 1) % 18446744073709551616) || (sends_netflowV9UDPCh == iter(sends_netflowV9UDPCh) && i.stats.UDPCount == iter(i.stats.UDPCount))
 
@@ -107,10 +107,10 @@ package main
 //@   requires opts != nil && opts.NetflowV5UDPSize >= 0
 //@   opt nonterminating
 //@   modifies i
-//@   loop 1 @ for n < i.workers
+//@   loop 1 @ for n < i.workers #2ee2dd81
 //@     invariant i != nil && opts != nil && opts == old(opts) && opts.NetflowV5UDPSize >= 0 && conn != nil
 //@     decreases i.workers - n
-//@   loop 2 @ for !i.stop
+//@   loop 2 @ for !i.stop #642870ad
 //@     invariant i != nil && opts != nil && opts == old(opts) && opts.NetflowV5UDPSize >= 0 && conn != nil
 //@     step [received] (sends_netflowV5UDPCh == iter(sends_netflowV5UDPCh) + 1 && i.stats.UDPCount == (iter(i.stats.UDPCount) + 1) % 18446744073709551616) || (sends_netflowV5UDPCh == iter(sends_netflowV5UDPCh) && i.stats.UDPCount == iter(i.stats.UDPCount))
 
@@ -119,10 +119,10 @@ package main
 //@   requires opts != nil && opts.SFlowUDPSize >= 0 && opts.SFlowUDPSize <= 1048576
 //@   opt nonterminating
 //@   modifies s
-//@   loop 1 @ for i < s.workers
+//@   loop 1 @ for i < s.workers #6e6167ba
 //@     invariant s != nil && opts != nil && opts == old(opts) && opts.SFlowUDPSize >= 0 && opts.SFlowUDPSize <= 1048576 && s.conn != nil
 //@     decreases s.workers - i
-//@   loop 2 @ for !s.stop
+//@   loop 2 @ for !s.stop #478364a2
 //@     invariant s != nil && opts != nil && opts == old(opts) && opts.SFlowUDPSize >= 0 && opts.SFlowUDPSize <= 1048576 && s.conn != nil
 //@     step [received] (sends_sFlowUDPCh == iter(sends_sFlowUDPCh) + 1 && s.stats.UDPCount == (iter(s.stats.UDPCount) + 1) % 18446744073709551616) || (sends_sFlowUDPCh == iter(sends_sFlowUDPCh) && s.stats.UDPCount == iter(s.stats.UDPCount))
 
@@ -148,7 +148,7 @@ package main
 //@   opt nonterminating
 //@   opt allocbound 1048624   // the configured maximum datagram size plus headers (configuration, not a wire field)
 //@   callassert Send: ipv4 ==> mirrored4(arg0, msg.raddr.IP, dst, 55117, port, msg.body)
-//@   loop 1 @ for
+//@   loop 1 @ for #42fe5eea
 //@     invariant opts != nil && opts == old(opts) && opts.IPFIXUDPSize >= 0 && mirrorMsgs(ch) && len(packet) == opts.IPFIXUDPSize + 48 && len(udpHdr) == 8 && len(ipHdr) == ipHLen
 //@     invariant [v4kind] ipv4 ==> ipHLen == 20 && isboxed(ip, mirror.IPv4)
 //@     invariant [v4hdr] ipv4 ==> ipHdr[0] == 69 && ipHdr[1] == 0 && ipHdr[6] == 0 && ipHdr[7] == 0 && ipHdr[8] == 64 && ipHdr[9] == 17
@@ -160,10 +160,10 @@ package main
 //@   requires opts != nil && opts.IPFIXUDPSize >= 0 && opts.IPFIXUDPSize <= 1048576 && mirrorMsgs(ch)
 //@   opt nonterminating
 //@   modifies ipfixMirrorEnabled
-//@   loop 1 @ for w < opts.IPFIXMirrorWorkers
+//@   loop 1 @ for w < opts.IPFIXMirrorWorkers #e1678de8
 //@     invariant opts != nil && opts == old(opts) && opts.IPFIXUDPSize >= 0 && opts.IPFIXUDPSize <= 1048576 && mirrorMsgs(ch) && mirrorMsgs(ch4) && mirrorMsgs(ch6)
 //@     decreases opts.IPFIXMirrorWorkers - w
-//@   loop 2 @ for
+//@   loop 2 @ for #92e98e0d
 //@     invariant opts != nil && opts == old(opts) && mirrorMsgs(ch) && mirrorMsgs(ch4) && mirrorMsgs(ch6)
 
 //@ func mirrorSFlow
@@ -172,7 +172,7 @@ package main
 //@   opt nonterminating
 //@   opt allocbound 1048624   // the configured maximum datagram size plus headers (configuration, not a wire field)
 //@   callassert Send: ipv4 ==> mirrored4(arg0, msg.raddr.IP, dst, 55118, port, msg.body)
-//@   loop 1 @ for
+//@   loop 1 @ for #1d954b3d
 //@     invariant opts != nil && opts == old(opts) && opts.SFlowUDPSize >= 0 && mirrorMsgsSF(ch) && len(packet) == opts.SFlowUDPSize + 48 && len(udpHdr) == 8 && len(ipHdr) == ipHLen
 //@     invariant [v4kind] ipv4 ==> ipHLen == 20 && isboxed(ip, mirror.IPv4)
 //@     invariant [v4hdr] ipv4 ==> ipHdr[0] == 69 && ipHdr[1] == 0 && ipHdr[6] == 0 && ipHdr[7] == 0 && ipHdr[8] == 64 && ipHdr[9] == 17
@@ -184,10 +184,10 @@ package main
 //@   requires opts != nil && opts.SFlowUDPSize >= 0 && opts.SFlowUDPSize <= 1048576 && mirrorMsgsSF(ch)
 //@   opt nonterminating
 //@   modifies sFlowMirrorEnabled
-//@   loop 1 @ for w < opts.SFlowMirrorWorkers
+//@   loop 1 @ for w < opts.SFlowMirrorWorkers #7362e40e
 //@     invariant opts != nil && opts == old(opts) && opts.SFlowUDPSize >= 0 && opts.SFlowUDPSize <= 1048576 && mirrorMsgsSF(ch) && mirrorMsgsSF(ch4) && mirrorMsgsSF(ch6)
 //@     decreases opts.SFlowMirrorWorkers - w
-//@   loop 2 @ for
+//@   loop 2 @ for #92e98e0d
 //@     invariant opts != nil && opts == old(opts) && mirrorMsgsSF(ch) && mirrorMsgsSF(ch4) && mirrorMsgsSF(ch6)
 
 // ---- configuration precedence (C17) --------------------------------------------------------------------
@@ -200,7 +200,7 @@ package main
 //@   ensures [kept] forall k :: 0 <= k && k < old(len(*a)) ==> (*a)[k] == old((*a)[k])
 //@   ensures [rejects] err == nil ==> forall k :: 0 <= k && k < len(splitU(value, ",")) ==> uintOK(splitU(value, ",")[k], 10, 32)
 //@   modifies a
-//@   loop 1 @ range arr
+//@   loop 1 @ range arr #0d8c8ea1
 //@     invariant a != nil && arr == splitU(value, ",") && len(*a) == old(len(*a)) + range_i
 //@     invariant forall k :: 0 <= k && k < range_i ==> (*a)[old(len(*a)) + k] == uintVal(arr[k], 10) && uintOK(arr[k], 10, 32)
 //@     invariant forall k :: 0 <= k && k < old(len(*a)) ==> (*a)[k] == old((*a)[k])
